@@ -10,17 +10,10 @@ META = {
 }
 
 
-def _mc(c, *a, **k):
-    import os
-    if os.environ.get("VERIF_SKIP_MC"):  # speed-up for mutation testing only: the model does not depend on /repo
-        return None
-    return c.tlc_mc(*a, **k)
-
-
 def run(c):
-    _mc(c, "AutonatServer", "MCAutonatServer.cfg")
-    _mc(c, "AutonatServer", "MCAutonatServer_canary.cfg", expect=["OneDialBackPerPeer"])
-    _mc(c, "AutonatServer", "MCAutonatServer_canary2.cfg", expect=["OneDialBackPerPeer"])
+    c.tlc_mc("AutonatServer", "MCAutonatServer.cfg")
+    c.tlc_mc("AutonatServer", "MCAutonatServer_canary.cfg", expect=["OneDialBackPerPeer"])
+    c.tlc_mc("AutonatServer", "MCAutonatServer_canary2.cfg", expect=["OneDialBackPerPeer"])
     drv = c.build("drv-autonat")
     if c.replay:
         first = json.loads(open(c.replay).readline())
